@@ -3826,7 +3826,7 @@ static int bufr_load_datasubsets( FILE *fp, BUFR_Dataset *dts, int lineno, BUFR_
          {
          ptr = ptr+i+1; 
          tok = strtok_r( NULL, "\n\r", &ptr );
-         len = strlen( tok );
+         len = tok ? strlen( tok ) : 0; /* nothing may follow the opening quote */
          for ( i = len-1 ; i > 0 ; i-- )
             {
             if (tok[i] == '"')
